@@ -1,7 +1,10 @@
 CONSTANTS
   Jobs <- Menu
-  KeyByHw = TRUE
-  CopyAttrs = TRUE
+  FineRb = TRUE
+  FineRe = TRUE
+  ProtRb = TRUE
+  ProtAcl = TRUE
+  ProtOrd = TRUE
   MaxLen = 3
 INIT Init
 NEXT Next
